@@ -1,4 +1,6 @@
+#![feature(allocator_api)]
 use vstd::prelude::*;
+use vstd::future::*;
 verus! {
 //@include frag/std.tpl
 //@include frag/core_modules.tpl
@@ -24,8 +26,42 @@ pub mod rodbus {
     pub use crate::error::*;
     pub use crate::decode::*;
     pub use crate::types::*;
-    pub mod server { pub use crate::ffi_server::Authorization; }
+    pub mod server { pub use crate::ffi_server::Authorization; pub use crate::rodbus_server::*; }
 }
+pub mod rodbus_server {
+//@include frag/ffi_rodbus_server_shim.tpl
+}
+// the generated runtime.rs (oo-bindgen) as the constructors use it
+pub struct Runtime { pub x: u8 }
+pub struct RuntimeHandle { pub x: u8 }
+pub enum RuntimeError { RuntimeDestroyed, CannotBlockWithinAsync, FailedToCreateRuntime }
+impl Runtime {
+    #[verifier::external_body]
+    pub fn handle(&self) -> (r: RuntimeHandle) { unimplemented!() }
+}
+impl RuntimeHandle {
+    // runs the future to completion on the runtime and returns its output
+    #[verifier::external_body]
+    pub fn block_on<F: core::future::Future>(&self, future: F) -> (r: Result<F::Output, RuntimeError>)
+        ensures future.awaited(), r matches Ok(v) ==> v == future@,
+    { unimplemented!() }
+}
+//@trusted Runtime::handle / RuntimeHandle::block_on (generated runtime.rs): block_on returns the output of the future it ran to completion, or a RuntimeError
+pub mod runtime { pub use crate::RuntimeError; }
+impl vstd::std_specs::convert::FromSpecImpl<crate::runtime::RuntimeError> for crate::ffi::ParamError {
+    open spec fn obeys_from_spec() -> bool { true }
+    open spec fn from_spec(err: crate::runtime::RuntimeError) -> Self {
+        match err {
+            crate::runtime::RuntimeError::RuntimeDestroyed => crate::ffi::ParamError::RuntimeDestroyed,
+            crate::runtime::RuntimeError::CannotBlockWithinAsync => crate::ffi::ParamError::RuntimeCannotBlockWithinAsync,
+            crate::runtime::RuntimeError::FailedToCreateRuntime => crate::ffi::ParamError::RuntimeCreationFailure,
+        }
+    }
+}
+impl From<crate::runtime::RuntimeError> for crate::ffi::ParamError {
+//@fn ffi/rodbus-ffi/src/lib.rs | From<crate::runtime::RuntimeError> for crate::ffi::ParamError::from | tags=C18
+}
+pub use ffi_server::{Server, DeviceMap, AddressFilter};
 pub mod ffi {
 //@include frag/ffi_generated.tpl
 }
